@@ -70,6 +70,9 @@ type input struct {
 	Seed       int64    `json:"seed,omitempty"` // content seed of a narrowed (replay) input
 	// Switches: which confirmed defects the probe found repaired on this tree (classification only)
 	Switches map[string]bool `json:"switches,omitempty"`
+	// OwnOnly (fault enumeration, budget of the quick tier): faults go into the operations' own
+	// mutations only, not into those of the lazy filter initialisation they trigger
+	OwnOnly bool `json:"ownOnly,omitempty"`
 	// DeadlineSec: write out what was recorded and end the process after that many seconds
 	DeadlineSec int `json:"deadlineSec,omitempty"`
 }
@@ -90,7 +93,7 @@ func (in input) batchBytes() int {
 
 func (in input) narrowed(b []step, ns bool, be string, o *only, seed int64) input {
 	return input{Consts: in.Consts, Behaviours: [][]step{b}, NewState: []bool{ns}, Backends: []string{be},
-		PruneBatch: in.PruneBatch, Plain: in.Plain, Only: o, Seed: seed, Switches: in.Switches}
+		PruneBatch: in.PruneBatch, Plain: in.Plain, Only: o, Seed: seed, Switches: in.Switches, OwnOnly: in.OwnOnly}
 }
 
 func modeOf(outcome string) faultkv.Mode {
@@ -791,7 +794,14 @@ func TestCrashEnum(t *testing.T) {
 					if (cnt[fi] > 1 && e.ops[fi].name != "prune") || (e.ops[fi].name == "query" && cnt[fi] > 0) {
 						out.Count("ops_with_init_mutations", 1)
 					}
-					for k := 1; k <= cnt[fi]; k++ {
+					first := 1
+					if in.OwnOnly && e.ops[fi].name != "prune" {
+						first = max(cnt[fi], 1)
+						if e.ops[fi].name == "query" {
+							continue
+						}
+					}
+					for k := first; k <= cnt[fi]; k++ {
 						for _, mode := range []faultkv.Mode{faultkv.FailAt, faultkv.CrashAfter} {
 							if in.MaxTrials > 0 && n >= in.MaxTrials {
 								continue
